@@ -2,14 +2,14 @@ package hc
 
 import "embed"
 
-//go:embed hc.go lex.go conc.go
+//go:embed hc.go lex.go conc.go opaque.go
 var srcFS embed.FS
 
 // Sources returns the harness run-time sources that are copied into every
 // scratch batch module as package batch/hc.
 func Sources() map[string]string {
 	out := map[string]string{}
-	for _, n := range []string{"hc.go", "lex.go", "conc.go"} {
+	for _, n := range []string{"hc.go", "lex.go", "conc.go", "opaque.go"} {
 		b, err := srcFS.ReadFile(n)
 		if err != nil {
 			panic(err)
